@@ -774,6 +774,22 @@ def c12(tier, rng, rep, only=None):
         g.add_ops(d, ops)
     g = make_guard_run(tier, rng, decls=decls, ops_for=ops_for, spec=False)
     run_guard(g, rep, rng)
+    # the gate itself: Eq / Ord on a float newtype is refused unless `finite` is declared
+    n_gate = 0
+    if only is None:
+        import verdicts
+        edecls = verdicts.gen_c12_decls(rng.fork("e"), tier)
+        ge, dropped_e = verdict_run("eqgate", edecls, runner.FEATURES_ALL, rep, rng)
+        for d in edecls:
+            n_gate += 1
+            payload = {"kind": "verdict", "decl": d.to_json(), "decl_rust": runner.decl_module(d, None), "rustc": (dropped_e.get(d.id) or ["(compiles)"])[:3]}
+            if not d.has_finite and d.id not in dropped_e:
+                rep.violation("float declaration %s derives Eq / Ord without `finite` and compiles: a NaN is obtainable" % d.id, payload)
+            elif d.has_finite and d.id in dropped_e:
+                rep.violation("float declaration %s with `finite` may not derive Eq / Ord: %s" % (d.id, dropped_e[d.id][0][:160]), payload, no_input=True)
+            elif (d.id in dropped_e) != ge.model_verdict.get(d.id, "").startswith("reject"):
+                rep.violation("model and rustc disagree on %s: model %s" % (d.id, ge.model_verdict.get(d.id)), payload, no_input=True)
+    rep.coverage["eq_ord_gate_declarations"] = n_gate
     n = npairs = ntriples = 0
     for d in g.decls:
         if d.id not in g.live:
@@ -926,7 +942,8 @@ def c16(tier, rng, rep, only=None):
             return [("f", v) for v in (f_next_down(b, is64), b, f_next_up(b, is64), b ^ (1 << (63 if is64 else 31)))]
         if fam == "str":
             b = d.bounds[0]
-            return [("s", "a" * n_) for n_ in (b - 1, b, b + 1) if n_ >= 0]
+            # ASCII and multi-byte strings of the same character counts
+            return [("s", ch * n_) for n_ in (b - 1, b, b + 1) if n_ >= 0 for ch in ("a", "\u0436", "\U0001F600") if n_ > 0 or ch == "a"]
         return []
 
     def ops_for(g, d, r):
@@ -959,6 +976,12 @@ def c16(tier, rng, rep, only=None):
                 rep.violation("message of %s::%s does not name the newtype: %r" % (d.name, variant, text), case_payload(m, g))
             if not hasattr(d, "bounds"):
                 if skeleton != text:
+                    rep.violation("model and implementation differ on the message of %s: %r vs %r" % (variant, text, skeleton),
+                                  case_payload(m, g), no_input=True)
+                continue
+            if getattr(d, "companion", False) and variant != runner.VARIANTS[d.vkind]:
+                # the lax companion rule: only its text is compared with the model
+                if skeleton is None or (mm and skeleton.replace("{}", mm.group(4)) != text) or (not mm and skeleton != text):
                     rep.violation("model and implementation differ on the message of %s: %r vs %r" % (variant, text, skeleton),
                                   case_payload(m, g), no_input=True)
                 continue
@@ -1044,7 +1067,11 @@ def c11_eligible(d):
     if fam == "str":
         names = runner.block_idents(san)
         if "with" in names and any(n in names for n in ("trim", "lowercase", "uppercase")):
-            return False                    # mixed built-in + custom chains are outside the statement
+            # mixed built-in + custom chains: only those whose composition IN THE DECLARED ORDER is
+            # idempotent: ascii-upper commutes with trim; (first three chars, then trim) yields a
+            # trimmed string of at most three chars, which both steps leave alone
+            seq = [("W%d" % t[1]) if t[0] == "fn" else t[1] for t in san if t[0] == "fn" or (t[0] == "id" and t[1] in ("trim", "lowercase", "uppercase"))]
+            return seq in (["trim", "W1"], ["W1", "trim"], ["W2", "trim"])
     return True
 
 
@@ -1060,7 +1087,20 @@ def c11(tier, rng, rep, only=None):
             ins = ins + [("s", e) for e in extra_inputs]
         if d.family() == "int" and len(ins) > 80:
             ins = ins[:: max(1, len(ins) // 80)]
-        g.add_ops(d, [(guardcorpus.ctor_op(d), val_sexp(v)) for v in ins])
+        info = runner.DeclInfo(d)
+        ops = []
+        for k_, v in enumerate(ins):
+            a = val_sexp(v)
+            ops.append((guardcorpus.ctor_op(d), a))
+            # values are obtainable through every derived entry point, not only the constructor
+            if k_ % 3 == 0:
+                if "TryFrom" in info.traits:
+                    ops.append(("try_from", a))
+                if "From" in info.traits:
+                    ops.append(("from", a))
+                if "FromStr" in info.traits and d.inner == "String":
+                    ops.append(("from_str_s", a))
+        g.add_ops(d, ops)
     g = make_guard_run(tier, rng, decls=decls, ops_for=ops_for, spec=False)
     run_guard(g, rep, rng)
     # second round: every obtained value through every derived entry point
@@ -1077,7 +1117,7 @@ def c11(tier, rng, rep, only=None):
         seen = set()
         for c in g.by_decl.get(d.id, []):
             n1 += 1
-            if c.impl != c.model:
+            if c.impl != c.model and c.op in ("try_new", "new"):
                 rep.notes.append("constructor differs from the model on %s %s (C01's concern)" % (d.id, c.arg))
             if c.impl and c.impl.startswith("ok ") and c.impl not in seen:
                 seen.add(c.impl)
@@ -1104,10 +1144,43 @@ def c11(tier, rng, rep, only=None):
             rep.violation("value %s obtained from %s is not reproduced by %s: %s" % (c.arg, c.decl.id, c.op, c.impl), case_payload(c, g2))
         elif c.model != c.impl:
             rep.violation("model and implementation differ on re-entry %s(%s): %s vs %s" % (c.op, c.arg, c.impl, c.model), case_payload(c, g2), no_input=True)
+    # values obtained through Deserialize (serde corpus): they too must re-enter unchanged
+    n3 = 0
+    if only is None:
+        sdecls = [d for d in corpus.gen_serde_decls(rng.fork("serde"), tier) if c11_eligible(d)]
+
+        def ops_de(g_, d, r):
+            docs = json_docs(d, r, tier)
+            g_.add_ops(d, [("de_json", val_sexp(("s", x))) for x in docs])
+        g3 = make_guard_run(tier, rng, decls=sdecls, ops_for=ops_de, spec=False, wsname="serde")
+        run_guard(g3, rep, rng)
+        g4 = flows.GuardRun(g3.ws.name, g3.decls)
+        g4.ws = g3.ws
+        g4.live = g3.live
+        for d in g3.decls:
+            if d.id not in g3.live:
+                continue
+            info = runner.DeclInfo(d)
+            seen = set()
+            ops = []
+            for c in g3.by_decl.get(d.id, []):
+                if c.impl and c.impl.startswith("ok ") and c.impl not in seen:
+                    seen.add(c.impl)
+                    ops.append((guardcorpus.ctor_op(d), c.impl[3:]))
+            g4.add_ops(d, ops)
+        g4.run_impl()
+        g4.run_model()
+        for c in g4.cases:
+            if c.impl is None:
+                continue
+            n3 += 1
+            kinds["deserialized->" + c.op] = kinds.get("deserialized->" + c.op, 0) + 1
+            if c.impl != "ok " + c.arg:
+                rep.violation("value %s obtained from %s by Deserialize is not reproduced by %s: %s" % (c.arg, c.decl.id, c.op, c.impl), case_payload(c, g4))
     # third/fourth rounds are identical calls on identical values (the constructors are pure): the chain of length 4
     # is covered by determinism, which the second round re-checks on every distinct value
-    rep.coverage.update({"evaluations": n1 + n2, "distinct_nontrivial": n2,
-                         "rule": "declarations with built-in sanitizers (every order of trim / lowercase|uppercase) or idempotent custom ones, every validator set, all families; inputs of the C01 domains on the Unicode alphabet (final sigma, dotted capital I, sharp s, ligatures, combining marks, every White_Space kind) plus targeted strings; every distinct obtained value is fed back through try_new / TryFrom / From / FromStr and must be reproduced exactly",
+    rep.coverage.update({"evaluations": n1 + n2 + n3, "distinct_nontrivial": n2 + n3,
+                         "rule": "declarations with built-in sanitizers (every order of trim / lowercase|uppercase), idempotent custom ones, or mixed chains whose composition in the declared order is idempotent; every validator set, all families; inputs of the C01 domains on the Unicode alphabet (final sigma, dotted capital I, sharp s, ligatures, combining marks, every White_Space kind) plus targeted strings; values are obtained through the constructor, TryFrom / From / FromStr and (serde corpus) Deserialize; every distinct obtained value is fed back through try_new / TryFrom / From / FromStr and must be reproduced exactly",
                          "first_round_inputs": n1, "reentries_by_kind": kinds, "exhaustive": False})
     for c in g2.cases[:: max(1, len(g2.cases) // 6 or 1)][:6]:
         rep.samples.append({"decl": c.decl.id, "op": c.op, "value": c.arg, "impl": c.impl})
@@ -1487,6 +1560,33 @@ def c02(tier, rng, rep, only=None):
 
 # ------------------------------------------------------------------------------------- C15
 
+def nostd_extra_modules():
+    """hand-written declarations with type / lifetime parameters (verdict only: all are legal)"""
+    decls = [
+        ("#[nutype(derive(Debug, Clone, PartialEq, FromStr, AsRef))]", "pub struct P<T>(T);"),
+        ("#[nutype(validate(predicate = |v| *v != T::default()), derive(Debug, Clone, PartialEq, FromStr, Display))]", "pub struct P<T: Default + PartialEq>(T);"),
+        ("#[nutype(validate(predicate = |v| *v != T::default()), derive(Debug, Clone, PartialEq, Eq, PartialOrd, Ord, Hash, FromStr, Display, AsRef, Deref, Borrow, Serialize, Deserialize))]",
+         "pub struct P<T: Default + PartialEq>(T);"),
+        ("#[nutype(derive(Debug, Clone, Copy, PartialEq, AsRef, Deref, Into))]", "pub struct P<'a>(&'a str);"),
+        ("#[nutype(validate(predicate = |s| !s.is_empty()), derive(Debug, Clone, Copy, PartialEq, Eq, PartialOrd, Ord, Hash, AsRef, Deref, Display, TryFrom, Into, Borrow))]", "pub struct P<'a>(&'a str);"),
+        ("#[nutype(derive(Debug, Clone, PartialEq, AsRef, Display, Deref, Serialize, Deserialize, Default), default = T::default())]", "pub struct P<T: Default>(T);"),
+        ("#[nutype(derive(Debug, Clone, PartialEq, AsRef, Display, Deref, Serialize, Deserialize))]", "pub struct P<T>(T);"),
+        ("#[nutype(derive(Debug, Clone, PartialEq, AsRef, Into, Deref, From, Serialize, Deserialize))]", "pub struct P<T>(Vec<T>);"),
+        ("#[nutype(sanitize(with = |mut v| { v.sort(); v }), validate(predicate = |v| !v.is_empty()), derive(Debug, Clone, PartialEq, AsRef, Deref, TryFrom, IntoIterator, Serialize, Deserialize))]",
+         "pub struct P<T: Ord>(Vec<T>);"),
+        ("#[nutype(validate(predicate = |v| !v.is_empty()), derive(Debug, Clone, PartialEq, Eq, Hash, AsRef, Deref, TryFrom, Into, Borrow, Display))]",
+         "pub struct P<'a>(alloc::borrow::Cow<'a, str>);"),
+        ("#[nutype(validate(with = chk, error = CErr), derive(Debug, Clone, PartialEq, FromStr))]",
+         "pub struct P<T: Default + PartialEq>(T);\n    use super::rt::CErr;\n    fn chk<T: Default + PartialEq>(v: &T) -> Result<(), CErr> { if *v == T::default() { Err(CErr(0)) } else { Ok(()) } }"),
+        ("#[nutype(const_fn, validate(greater = 0), derive(Debug, Clone, Copy, PartialEq, Eq, PartialOrd, Ord, Hash, FromStr, Display, TryFrom, Into, AsRef, Deref, Borrow, Default), default = 1)]", "pub struct P(i64);"),
+    ]
+    out = []
+    for i, (attr_, item) in enumerate(decls):
+        text = ("pub mod x%d {\n    #![allow(dead_code, unused_imports)]\n    use nutype::nutype;\n    use alloc::vec::Vec;\n    %s\n    %s\n}\n" % (i, attr_, item))
+        out.append(("x%d" % i, text))
+    return out
+
+
 def c15(tier, rng, rep, only=None):
     feats = ["serde", "arbitrary", "new_unchecked"]
     if only is not None:
@@ -1518,6 +1618,40 @@ def c15(tier, rng, rep, only=None):
                           {"kind": "verdict", "decl": d.to_json(), "decl_rust": runner.nostd_module(d), "features": feats, "rustc": msgs[:3]})
         elif d.id not in dropped and mv.startswith("reject"):
             rep.notes.append("%s compiles although the model rejects it (%s): C08's concern" % (d.id, mv))
+    # the same crates under cfg(test): the #[test]s the macro generates must resolve without std too
+    n_t = 0
+    if only is None:
+        g.ws.write([d for d in decls if d.id in g.live])
+        rc, errors, stderr = g.ws.check_tests()
+        bad = runner.attribute_errors(g.ws, errors) if rc != 0 else {}
+        for did, msgs in bad.items():
+            d = [x for x in decls if x.id == did][0]
+            rep.violation("declaration %s builds inside a #![no_std] crate but not under cfg(test) (generated unit tests): %s" % (did, msgs[0][:200]),
+                          {"kind": "verdict", "decl": d.to_json(), "decl_rust": runner.nostd_module(d), "features": feats, "rustc": msgs[:3],
+                           "reproduce": "cargo check --tests in a #![no_std] library crate"})
+        if rc != 0 and not bad:
+            rep.violation("cargo check --tests of the no_std corpus fails: %s" % stderr[-300:], {"kind": "verdict", "stderr": stderr[-2000:]}, no_input=True)
+        n_t = len(g.live)
+        # generic / lifetime-parameterised declarations of the documented grammar (hand-written, verdict only)
+        extra = nostd_extra_modules()
+        ws3 = runner.ModuleWorkspace("nostd_extra", feats, nshards=4, nostd=True)
+        dropped3 = ws3.verdicts(extra)
+        for mid, text in extra:
+            n += 1
+            by_fam["generic"] = by_fam.get("generic", 0) + 1
+            if mid in dropped3:
+                rep.violation("declaration %s of the documented grammar does not compile inside a #![no_std] crate: %s" % (mid, dropped3[mid][0][:200]),
+                              {"kind": "verdict", "module": text, "features": feats, "rustc": dropped3[mid][:3]})
+        ws3.write_modules([m for m in extra if m[0] not in dropped3])
+        rc, errors, stderr = ws3.check_tests()
+        if rc != 0:
+            bad = runner.attribute_errors(ws3, errors)
+            for mid, msgs in bad.items():
+                rep.violation("declaration %s builds inside a #![no_std] crate but not under cfg(test): %s" % (mid, msgs[0][:200]),
+                              {"kind": "verdict", "module": dict(extra).get(mid), "features": feats, "rustc": msgs[:3]})
+            if not bad:
+                rep.violation("cargo check --tests of the generic no_std modules fails: %s" % stderr[-300:], {"kind": "verdict", "stderr": stderr[-2000:]}, no_input=True)
+    rep.coverage["checked_under_cfg_test"] = n_t
     # path roots and bare names of the real expansions (std build of the same families)
     g2decls = [d for d in guardcorpus.build_corpus(rng.fork("C01x"), tier)]
     g2 = flows.GuardRun("guard" if tier == "quick" else "guard_t", g2decls)
